@@ -545,3 +545,209 @@ def check(space, state):
     asserted += 1
     V.extend(copy.deepcopy(_END_CACHE[key]))
     return Res(V[:8], mutated, digest(ci, dg, start, tuple(sorted(set(h)))), asserted)
+
+
+# =====================================================================================
+# schedules: two threads reading objects that share argument dicts, under a cooperative
+# scheduler.  A scheduling point is every entry of lazyproperty.__get__ that is about to
+# COMPUTE a value (harness-side wrapper delegating to the original descriptor).  Stateless
+# exploration with a preemption bound: schedule = (thread that starts, global point numbers
+# at which the running thread is preempted).
+# =====================================================================================
+import threading
+
+from cr.cube.util import lazyproperty as _lazyproperty
+
+_ORIG_GET = _lazyproperty.__get__
+
+
+class _Sched:
+    def __init__(self):
+        self.active = False
+
+    def start(self, switch_at, first):
+        self.switch_at = set(switch_at)
+        self.counter = 0
+        self.current = first
+        self.go = [threading.Semaphore(0), threading.Semaphore(0)]
+        self.ctrl = threading.Semaphore(0)
+        self.done = [False, False]
+        self.trace = []
+        self.tids = {}
+        self.active = True
+
+    def point(self):
+        tid = self.tids.get(threading.get_ident())
+        if tid is None or not self.active:
+            return
+        k = self.counter
+        self.counter += 1
+        if k in self.switch_at and not self.done[1 - tid]:
+            self.trace.append((k, tid))
+            self.current = 1 - tid
+            self.ctrl.release()          # hand the baton back to the controller
+            self.go[tid].acquire()       # ... and wait to be resumed
+
+
+SCHED = _Sched()
+
+
+def _patched_get(self, obj, type=None):
+    if obj is not None and SCHED.active and obj.__dict__.get(self.__name__) is None:
+        SCHED.point()
+    return _ORIG_GET(self, obj, type)
+
+
+def run_schedule(ci, reads, first, switch_at):
+    """Execute reads[0] in thread 0 and reads[1] in thread 1 on ONE world under the schedule.
+    -> (results per thread, number of scheduling points, world)"""
+    w = World(ci)
+    results = [[], []]
+    errors = []
+
+    def body(tid):
+        SCHED.tids[threading.get_ident()] = tid
+        SCHED.go[tid].acquire()
+        try:
+            for path, name, args in reads[tid]:
+                try:
+                    obj = _locate(w, path)
+                    results[tid].append(((path, name, args), do_read(obj, name, args)))
+                except Exception as e:
+                    results[tid].append(((path, name, args), ("exc", "locate:" + type(e).__name__)))
+        except BaseException as e:      # pragma: no cover
+            errors.append(repr(e))
+        finally:
+            SCHED.done[tid] = True
+            SCHED.ctrl.release()
+
+    SCHED.start(switch_at, first)
+    _lazyproperty.__get__ = _patched_get
+    try:
+        ts = [threading.Thread(target=body, args=(i,), daemon=True) for i in (0, 1)]
+        for t in ts:
+            t.start()
+        cur = first
+        guard = 0
+        while not all(SCHED.done):
+            if SCHED.done[cur]:
+                cur = 1 - cur
+            SCHED.current = cur
+            SCHED.go[cur].release()
+            if not SCHED.ctrl.acquire(timeout=60):
+                errors.append("scheduler timeout (deadlock?)")
+                break
+            cur = SCHED.current if not SCHED.done[SCHED.current] else 1 - SCHED.current
+            guard += 1
+            if guard > 10000:
+                errors.append("scheduler livelock")
+                break
+        for t in ts:
+            t.join(timeout=5)
+    finally:
+        _lazyproperty.__get__ = _ORIG_GET
+        SCHED.active = False
+    return results, SCHED.counter, w, errors
+
+
+SCHED_CASES = [2, 3, 0, 9, 10, 11]      # 3-D cubes sharing a transforms dict, cube sets
+SCHED_READS = [("counts", None), ("row_labels", None), ("row_order", ()), ("column_index", None),
+               ("row_proportions", None), ("column_labels", None)]
+
+
+def sched_pairs(ci):
+    """pairs of single reads on two different partitions (or root + partition)"""
+    tab, n_parts, _d, plist = reference(ci)
+    objs = plist[:3]
+    pairs = []
+    for a in range(len(objs)):
+        for b in range(len(objs)):
+            if a == b and len(objs) > 1:
+                continue
+            for ra in SCHED_READS[:4]:
+                for rb in SCHED_READS[:4]:
+                    if (objs[a], ra[0], ra[1]) in tab and (objs[b], rb[0], rb[1]) in tab:
+                        pairs.append(((objs[a], ra[0], ra[1]), (objs[b], rb[0], rb[1])))
+    return pairs
+
+
+def sched_spaces(bound):
+    out = []
+    for ci in SCHED_CASES:
+        pairs = sched_pairs(ci)
+
+        def gen(ci=ci, pairs=pairs, bound=bound):
+            for pi, (ra, rb) in enumerate(pairs):
+                for first in (0, 1):
+                    _res, n, _w, _err = run_schedule(ci, [[ra], [rb]], first, ())
+                    yield ("sched", ci, pi, first, ())
+                    for k in range(n):
+                        yield ("sched", ci, pi, first, (k,))
+                    if bound >= 2:
+                        for k in range(0, n, max(1, n // 12)):
+                            for l in range(k + 1, n, max(1, n // 12)):
+                                yield ("sched", ci, pi, first, (k, l))
+        out.append(Space("schedules_" + CASES[ci].__name__, [(1, gen)], 2,
+                         {"case": CASES[ci].__name__, "read_pairs": len(pairs), "preemption_bound": bound,
+                          "scheduling_points": "every lazyproperty.__get__ about to compute"}))
+    return out
+
+
+def check_sched(state):
+    _, ci, pi, first, switch_at = state
+    tab, n_parts, pristine_digest, plist = reference(ci)
+    ra, rb = sched_pairs(ci)[pi]
+    V = []
+    runs = []
+    for rep in range(2):          # every schedule is replayed twice: observations must agree
+        results, n, w, errors = run_schedule(ci, [[ra], [rb]], first, switch_at)
+        runs.append((results, n, errors, w.args_digest()))
+    if runs[0][0] != runs[1][0] or runs[0][1] != runs[1][1]:
+        # nondeterministic harness: never believed, reported as a note only
+        return Res([], False, digest("sched-nondeterministic", ci, pi), 1)
+    results, n, errors, dg = runs[0]
+    for e in errors:
+        V.append(viol("schedule:" + e.split(" ")[0], "schedule %r: %s" % (state, e)))
+    where = "%s schedule first=%d preempt_at=%r" % (CASES[ci].__name__, first, switch_at)
+    for tid in (0, 1):
+        for key, out in results[tid]:
+            _compare(V, tab, key, out, where + " thread %d" % tid)
+    V = [dict(v, kind="schedule:" + v["kind"]) if not v["kind"].startswith("schedule:") else v for v in V]
+    return Res(V, bool(switch_at) and switch_at[0] < n, digest(ci, pi, first, repr(results)), 2 + len(switch_at))
+
+
+_seq_spaces = spaces
+_seq_check = check
+_seq_detail = detail
+
+
+def spaces(tier):          # noqa: F811
+    out = _seq_spaces(tier)
+    out += sched_spaces(1 if tier == "quick" else 2) if tier == "thorough" else sched_spaces_quick()
+    return out
+
+
+def sched_spaces_quick():
+    """quick tier: preemption bound 1 on the two inputs whose partitions share a rewritten dict"""
+    global SCHED_CASES
+    keep = SCHED_CASES
+    SCHED_CASES = [2, 9]
+    try:
+        return sched_spaces(1)
+    finally:
+        SCHED_CASES = keep
+
+
+def check(space, state):          # noqa: F811
+    if state and state[0] == "sched":
+        return check_sched(state)
+    return _seq_check(space, state)
+
+
+def detail(space, state):          # noqa: F811
+    if state and state[0] == "sched":
+        _, ci, pi, first, switch_at = state
+        ra, rb = sched_pairs(ci)[pi]
+        return {"case": CASES[ci].__name__, "thread0_reads": [repr(ra)], "thread1_reads": [repr(rb)],
+                "first_thread": first, "preempt_at_points": list(switch_at)}
+    return _seq_detail(space, state)
